@@ -369,6 +369,30 @@ func (rw *rewriter) collect(f *ast.File) {
 				}
 			}
 		case *ast.CallExpr:
+			// a pointer-receiver method called on a package-level variable that is not a pointer, an interface or a
+			// synchronisation primitive (buf.Reset(), cache.Store(...)) may modify it: counted as a write of the variable
+			if se, ok := x.Fun.(*ast.SelectorExpr); ok && rw.opt.Memory {
+				if id, ok := se.X.(*ast.Ident); ok {
+					if v, ok := rw.info.Uses[id].(*types.Var); ok && v.Parent() == rw.pkg.Scope() {
+						if sel := rw.info.Selections[se]; sel != nil && sel.Kind() == types.MethodVal {
+							if fn, ok := sel.Obj().(*types.Func); ok {
+								sig := fn.Type().(*types.Signature)
+								_, ptrRecv := sig.Recv().Type().(*types.Pointer)
+								_, varIsPtr := v.Type().Underlying().(*types.Pointer)
+								_, varIsIface := v.Type().Underlying().(*types.Interface)
+								syncType := false
+								if n, ok := v.Type().(*types.Named); ok && n.Obj().Pkg() != nil {
+									pp := n.Obj().Pkg().Path()
+									syncType = pp == "sync" || pp == "sync/atomic"
+								}
+								if ptrRecv && !varIsPtr && !varIsIface && !syncType {
+									markLHS(id)
+								}
+							}
+						}
+					}
+				}
+			}
 			if id, ok := x.Fun.(*ast.Ident); ok {
 				if b, ok := rw.info.Uses[id].(*types.Builtin); ok {
 					switch b.Name() {
